@@ -43,11 +43,13 @@ theorem digitsVal_dec (n : Nat) : digitsVal (dec n) = n := (decAux_spec (n + 1) 
 
 theorem parseUnsigned_digits (bits : Nat) (s : Bytes) (hne : s ≠ []) (hall : s.all isDigit = true) :
     parseUnsigned bits s = if digitsVal s < 2 ^ bits then some (digitsVal s) else none := by
+  have hs : stripPlus s = s := by
+    unfold stripPlus
+    split
+    · simp [isDigit, inRange] at hall
+    · rfl
   unfold parseUnsigned
-  split
-  · rename_i r
-    simp [isDigit, inRange] at hall
-  · simp [hne, hall]
+  simp [hs, hne, hall]
 
 theorem parseUnsigned_dec (bits n : Nat) (h : n < 2 ^ bits) : parseUnsigned bits (dec n) = some n := by
   rw [parseUnsigned_digits bits _ (dec_ne_nil n) (dec_digits n), digitsVal_dec]
